@@ -59,6 +59,23 @@ func Dev(args []string) {
 		fmt.Printf("%s monitor=%s\n%s\n", r.Verdict, r.Monitor, r.Detail)
 		return
 	}
+	if args[0] == "matrix" {
+		bad := 0
+		for i := 0; i < matrixSize(); i++ {
+			ctx := &core.Ctx{Property: "C02", Tier: "quick", Seed: seed, Index: i, Rng: core.CaseRng(seed, "C02", i), Stats: core.NewStats()}
+			r := run(ctx)
+			if r.Verdict == core.Violated {
+				bad++
+				if bad <= n {
+					fmt.Printf("=== %s\n%s\n", r.Monitor, core.Trunc(r.Detail, 1500))
+				} else {
+					fmt.Println("=== " + strings.SplitN(r.Detail, "\n", 2)[0])
+				}
+			}
+		}
+		fmt.Printf("matrix cells=%d violated=%d\n", matrixSize(), bad)
+		return
+	}
 	if args[0] == "l2" {
 		enableL1 = false
 		args[0] = "sweep"
